@@ -10,6 +10,7 @@ CONSTANTS
   Weak_IgnoreMissingRemoval = FALSE
   Weak_NoResort = FALSE
   Weak_NoPenalty = FALSE
+  Weak_PenaltyMulOverflow = FALSE
   Weak_NoRescale = FALSE
   Weak_NoCentre = FALSE
   Weak_TieHighAddr = FALSE
